@@ -1120,7 +1120,13 @@ func (e *xstore) do(op string) {
 				// GC refusing to run (e.g. index.json still naming blobs an earlier GC swept: F2,
 				// properties C08/C09) is not a statement about Predecessors: gcIndex returns
 				// before replacing the graph.  Not judged; the sweep below still checks the state.
-				run.Count("gc-error-not-judged")
+				if f1Present {
+					run.Count("gc-error-not-judged")
+				} else {
+					// with the known GC defects repaired a GC that refuses to run on a layout this
+					// store wrote itself makes "after GC" unreachable: reported
+					e.fail("gc-error", fmt.Sprintf("GC: %v", err))
+				}
 				e.script[len(e.script)-1] = "gc"
 				e.sweep(e.st, e.st, "after failed gc", &e.mops, &e.toks)
 				e.sops = append(e.sops, "S")
@@ -1129,8 +1135,14 @@ func (e *xstore) do(op string) {
 			}
 		case <-time.After(30 * time.Second):
 			// a hang is C09's business (F1): not judged here; stop using this store
-			run.Count("gc-hang-not-judged")
 			e.gcHung = true
+			if f1Present {
+				run.Count("gc-hang-not-judged")
+			} else if os.Getenv("C07_NO_CONFIRM") == "" && confirmHang(e.replay()) {
+				e.fail("gc-hang", "GC did not return within 30 s, and again not within 120 s in a fresh process replaying the same history")
+			} else {
+				run.Count("gc-hang-not-reproduced")
+			}
 			return
 		}
 		e.sawGC = true
@@ -1428,12 +1440,50 @@ func genStore(r *common.Rand, kind string, origin string) {
 			continue
 		}
 		switch {
-		case x < 30 && len(storedIDs) > 0:
+		case x < 27 && len(storedIDs) > 0:
 			e.do(fmt.Sprintf("delete:%d", common.Pick(r, storedIDs)))
+		case x < 30:
+			// Delete of content that is not stored (deleted before, never pushed, foreign layer)
+			run.Count("delete-absent")
+			var cand []int
+			for _, n := range g.Nodes {
+				if !e.stored[n.ID] {
+					cand = append(cand, n.ID)
+				}
+			}
+			if len(cand) > 0 {
+				e.do(fmt.Sprintf("delete:%d", common.Pick(r, cand)))
+			}
 		case x < 45 && len(absent) > 0:
+			if len(absent) >= 2 && r.Chance(1, 3) {
+				// a concurrent block in the middle of a history (after Delete / GC / reopen)
+				run.Count("phase2-concurrent-push")
+				common.Shuffle(r, absent)
+				k := 2 + r.Intn(len(absent)-1)
+				var gs []string
+				for _, i := range absent[:k] {
+					gs = append(gs, strconv.Itoa(i))
+				}
+				e.do("cpush:" + strings.Join(gs, "|"))
+				break
+			}
 			e.do(fmt.Sprintf("push:%d", common.Pick(r, absent)))
 		case x < 57 && len(storedManifests) > 0:
 			tagN++
+			if r.Chance(1, 5) {
+				// Tag accepts any stored content: a layer or config becomes a root of the index
+				var blobs []int
+				for _, i := range storedIDs {
+					if !g.Nodes[i].IsManifest() {
+						blobs = append(blobs, i)
+					}
+				}
+				if len(blobs) > 0 {
+					run.Count("tag-non-manifest")
+					e.do(fmt.Sprintf("tag:%d:b%d", common.Pick(r, blobs), tagN%2))
+					break
+				}
+			}
 			e.do(fmt.Sprintf("tag:%d:t%d", common.Pick(r, storedManifests), tagN%3))
 		case x < 60 && len(e.tags) > 0:
 			var names []string
@@ -1510,6 +1560,40 @@ func replayStore(rep storeReplay) {
 		e.do(op)
 	}
 	e.finish("store-" + rep.Store + "-replay")
+}
+
+// confirmHang replays a history in a fresh child process (a slow machine must not be
+// reported as a hanging GC): true iff the child does not finish within 120 s.
+func confirmHang(rep storeReplay) bool {
+	self, err := os.Executable()
+	if err != nil {
+		return false
+	}
+	dir, err := os.MkdirTemp("", "c07hang")
+	if err != nil {
+		return false
+	}
+	defer os.RemoveAll(dir)
+	js, _ := json.Marshal(map[string]any{"cases": []any{rep}})
+	rp := filepath.Join(dir, "replay.json")
+	if os.WriteFile(rp, js, 0o644) != nil {
+		return false
+	}
+	cmd := exec_Command(self, "-seed", "1", "-tier", "quick", "-dir", filepath.Join(dir, "out"), "-replay", rp)
+	cmd.Env = append(os.Environ(), "C07_NO_CONFIRM=1")
+	if cmd.Start() != nil {
+		return false
+	}
+	done := make(chan error, 1)
+	go func() { done <- cmd.Wait() }()
+	select {
+	case <-done:
+		return false
+	case <-time.After(120 * time.Second):
+		cmd.Process.Kill()
+		<-done
+		return true
+	}
 }
 
 // ------------------------------------------------------------------ F1 probe
@@ -2010,7 +2094,46 @@ func main() {
 	for i := 0; i < nStore; i++ {
 		caseFromSeed(kinds[i%len(kinds)], run.Rand.U64())
 	}
+	short := coverageFloors()
+	run.Extra["coverage_floor_failures"] = short
 	run.Finish()
+	if len(short) > 0 {
+		// a stream that silently stopped producing cases must not look like a pass
+		fmt.Fprintln(os.Stderr, "coverage floors not met: "+strings.Join(short, "; "))
+		os.Exit(3)
+	}
+}
+
+// coverageFloors: minimum counts per stream / history feature (quick-tier values; the
+// thorough tier produces far more).  Returns the unmet ones.
+func coverageFloors() []string {
+	floors := map[string]int{
+		"raw": 1000, "raw-concurrent-index-block": 300, "perm-raw": 10, "perm-memory-store": 10,
+		"burst-push": 50, "burst-push-tag-untag": 20, "chain": 30, "ftitle": 100,
+		"file-push-error-but-stored": 10, "ftitle-manifest-alt": 30, "ftitle-manifest-bad": 10,
+		"store-oci": 200, "store-memory": 40, "store-file": 40,
+		"history-with-gc": 40, "history-with-delete": 60, "history-with-reopen": 60,
+		"history-with-autogc-cascade": 5, "reopen-dir": 40, "reopen-fs": 15, "reopen-tar": 15,
+		"foreign-roots-only-index": 10, "push-concurrent": 40, "order-parents-first": 40,
+		"order-children-first": 40, "order-shuffled": 40, "query-absent-node-with-preds": 500,
+		"tag-non-manifest": 5, "delete-absent": 5, "phase2-concurrent-push": 10,
+	}
+	var keys []string
+	for k := range floors {
+		keys = append(keys, k)
+	}
+	sort.Strings(keys)
+	var short []string
+	for _, k := range keys {
+		if run.Dist[k] < floors[k] {
+			short = append(short, fmt.Sprintf("%s=%d<%d", k, run.Dist[k], floors[k]))
+		}
+	}
+	// GC outcomes that were not judged must stay a small minority
+	if nj := run.Dist["gc-error-not-judged"] + run.Dist["gc-hang-not-judged"] + run.Dist["gc-hang-not-reproduced"] + run.Dist["gc-skipped-unsafe-shape"]; nj*2 > run.Dist["history-with-gc"] {
+		short = append(short, fmt.Sprintf("gc-not-judged=%d vs history-with-gc=%d", nj, run.Dist["history-with-gc"]))
+	}
+	return short
 }
 
 func replay(path string) {
